@@ -414,7 +414,7 @@ def serial_case_of(sc):
     return Case(term, desc, kind=kind, nontrivial=bool(written)), escaped
 
 
-SERIAL_FRAMINGS = ["ascii"]
+SERIAL_FRAMINGS = ["ascii", "rtu"]
 
 
 def serial_suites(tier):
